@@ -1,0 +1,404 @@
+//! Verification hooks, compiled only with `--cfg rarena_verif`.
+//!
+//! Every atomic access of the crate goes through the transparent wrappers in
+//! [`atomic`], which report the access to a process-global [`Hook`] before and after
+//! it is performed. With no hook installed (or the cfg off) behaviour is unchanged.
+
+use core::sync::atomic::Ordering;
+use std::sync::OnceLock;
+
+/// The kind of an atomic access.
+#[derive(Debug, Clone, Copy, PartialEq, Eq)]
+pub enum Kind {
+  /// `load`
+  Load,
+  /// `store`
+  Store,
+  /// `compare_exchange`
+  Cas,
+  /// `compare_exchange_weak`
+  CasWeak,
+  /// `fetch_add`
+  FetchAdd,
+  /// `fetch_sub`
+  FetchSub,
+}
+
+/// An atomic access about to be performed.
+#[derive(Debug, Clone, Copy)]
+pub struct Access {
+  /// address of the atomic
+  pub addr: usize,
+  /// width in bytes
+  pub width: u8,
+  /// kind of access
+  pub kind: Kind,
+  /// (success) ordering
+  pub ord: Ordering,
+  /// failure ordering of a CAS
+  pub fail_ord: Option<Ordering>,
+  /// operand: value stored / added / subtracted / CAS new value
+  pub operand: u64,
+  /// expected value of a CAS
+  pub expected: u64,
+  /// call site
+  pub file: &'static str,
+  /// call site
+  pub line: u32,
+}
+
+/// What the hook wants the access to do.
+#[derive(Debug, Clone, Copy, PartialEq, Eq)]
+pub enum Decision {
+  /// perform the access
+  Proceed,
+  /// (only honoured by `compare_exchange_weak`) fail spuriously without comparing
+  SpuriousFail,
+}
+
+/// The result of an access.
+#[derive(Debug, Clone, Copy)]
+pub struct Outcome {
+  /// value before the access
+  pub old: u64,
+  /// value after the access
+  pub new: u64,
+  /// CAS success (true for other kinds)
+  pub ok: bool,
+}
+
+/// Callback interface.
+pub trait Hook: Sync + Send {
+  /// called before the access; may block
+  fn before(&self, access: &Access) -> Decision;
+  /// called after the access
+  fn after(&self, access: &Access, outcome: &Outcome);
+}
+
+static HOOK: OnceLock<&'static dyn Hook> = OnceLock::new();
+
+/// Installs the process-global hook (once).
+pub fn set_hook(hook: &'static dyn Hook) -> bool {
+  HOOK.set(hook).is_ok()
+}
+
+#[inline]
+fn hook() -> Option<&'static dyn Hook> {
+  HOOK.get().copied()
+}
+
+/// Wrapper atomics with the API subset used by the crate.
+pub mod atomic {
+  use super::*;
+  pub use core::sync::atomic::Ordering;
+
+  macro_rules! int_atomic {
+    ($name:ident, $inner:ident, $ty:ty, $width:expr) => {
+      /// Hooked atomic.
+      #[repr(transparent)]
+      #[derive(Debug)]
+      pub struct $name(core::sync::atomic::$inner);
+
+      impl $name {
+        /// see core
+        #[inline]
+        pub const fn new(v: $ty) -> Self {
+          Self(core::sync::atomic::$inner::new(v))
+        }
+
+        /// Plain access to the inner atomic (not reported).
+        #[inline]
+        pub fn verif_inner(&self) -> &core::sync::atomic::$inner {
+          &self.0
+        }
+
+        #[inline]
+        fn access(
+          &self,
+          kind: Kind,
+          ord: Ordering,
+          fail_ord: Option<Ordering>,
+          operand: u64,
+          expected: u64,
+          loc: &'static core::panic::Location<'static>,
+        ) -> Access {
+          Access {
+            addr: self as *const Self as usize,
+            width: $width,
+            kind,
+            ord,
+            fail_ord,
+            operand,
+            expected,
+            file: loc.file(),
+            line: loc.line(),
+          }
+        }
+
+        /// see core
+        #[track_caller]
+        #[inline]
+        pub fn load(&self, ord: Ordering) -> $ty {
+          match hook() {
+            None => self.0.load(ord),
+            Some(h) => {
+              let a = self.access(Kind::Load, ord, None, 0, 0, core::panic::Location::caller());
+              h.before(&a);
+              let v = self.0.load(ord);
+              h.after(
+                &a,
+                &Outcome {
+                  old: v as u64,
+                  new: v as u64,
+                  ok: true,
+                },
+              );
+              v
+            }
+          }
+        }
+
+        /// see core
+        #[track_caller]
+        #[inline]
+        pub fn store(&self, val: $ty, ord: Ordering) {
+          match hook() {
+            None => self.0.store(val, ord),
+            Some(h) => {
+              let a = self.access(
+                Kind::Store,
+                ord,
+                None,
+                val as u64,
+                0,
+                core::panic::Location::caller(),
+              );
+              h.before(&a);
+              let old = self.0.load(Ordering::Relaxed);
+              self.0.store(val, ord);
+              h.after(
+                &a,
+                &Outcome {
+                  old: old as u64,
+                  new: val as u64,
+                  ok: true,
+                },
+              );
+            }
+          }
+        }
+
+        /// see core
+        #[track_caller]
+        #[inline]
+        pub fn compare_exchange(
+          &self,
+          current: $ty,
+          new: $ty,
+          success: Ordering,
+          failure: Ordering,
+        ) -> Result<$ty, $ty> {
+          match hook() {
+            None => self.0.compare_exchange(current, new, success, failure),
+            Some(h) => {
+              let a = self.access(
+                Kind::Cas,
+                success,
+                Some(failure),
+                new as u64,
+                current as u64,
+                core::panic::Location::caller(),
+              );
+              h.before(&a);
+              let r = self.0.compare_exchange(current, new, success, failure);
+              let (old, ok) = match r {
+                Ok(v) => (v, true),
+                Err(v) => (v, false),
+              };
+              h.after(
+                &a,
+                &Outcome {
+                  old: old as u64,
+                  new: if ok { new as u64 } else { old as u64 },
+                  ok,
+                },
+              );
+              r
+            }
+          }
+        }
+
+        /// see core
+        #[track_caller]
+        #[inline]
+        pub fn compare_exchange_weak(
+          &self,
+          current: $ty,
+          new: $ty,
+          success: Ordering,
+          failure: Ordering,
+        ) -> Result<$ty, $ty> {
+          match hook() {
+            None => self.0.compare_exchange_weak(current, new, success, failure),
+            Some(h) => {
+              let a = self.access(
+                Kind::CasWeak,
+                success,
+                Some(failure),
+                new as u64,
+                current as u64,
+                core::panic::Location::caller(),
+              );
+              let r = match h.before(&a) {
+                Decision::SpuriousFail => Err(self.0.load(failure)),
+                // under the hook a weak CAS only fails when told to, so that runs are
+                // reproducible
+                Decision::Proceed => self.0.compare_exchange(current, new, success, failure),
+              };
+              let (old, ok) = match r {
+                Ok(v) => (v, true),
+                Err(v) => (v, false),
+              };
+              h.after(
+                &a,
+                &Outcome {
+                  old: old as u64,
+                  new: if ok { new as u64 } else { old as u64 },
+                  ok,
+                },
+              );
+              r
+            }
+          }
+        }
+
+        /// see core
+        #[track_caller]
+        #[inline]
+        pub fn fetch_add(&self, val: $ty, ord: Ordering) -> $ty {
+          match hook() {
+            None => self.0.fetch_add(val, ord),
+            Some(h) => {
+              let a = self.access(
+                Kind::FetchAdd,
+                ord,
+                None,
+                val as u64,
+                0,
+                core::panic::Location::caller(),
+              );
+              h.before(&a);
+              let old = self.0.fetch_add(val, ord);
+              h.after(
+                &a,
+                &Outcome {
+                  old: old as u64,
+                  new: old.wrapping_add(val) as u64,
+                  ok: true,
+                },
+              );
+              old
+            }
+          }
+        }
+
+        /// see core
+        #[track_caller]
+        #[inline]
+        pub fn fetch_sub(&self, val: $ty, ord: Ordering) -> $ty {
+          match hook() {
+            None => self.0.fetch_sub(val, ord),
+            Some(h) => {
+              let a = self.access(
+                Kind::FetchSub,
+                ord,
+                None,
+                val as u64,
+                0,
+                core::panic::Location::caller(),
+              );
+              h.before(&a);
+              let old = self.0.fetch_sub(val, ord);
+              h.after(
+                &a,
+                &Outcome {
+                  old: old as u64,
+                  new: old.wrapping_sub(val) as u64,
+                  ok: true,
+                },
+              );
+              old
+            }
+          }
+        }
+      }
+    };
+  }
+
+  int_atomic!(AtomicU32, AtomicU32, u32, 4);
+  int_atomic!(AtomicU64, AtomicU64, u64, 8);
+  int_atomic!(AtomicUsize, AtomicUsize, usize, 8);
+
+  /// Hooked atomic bool (not reported: only used for the remove-on-drop flag).
+  #[repr(transparent)]
+  #[derive(Debug)]
+  pub struct AtomicBool(core::sync::atomic::AtomicBool);
+
+  impl AtomicBool {
+    /// see core
+    #[inline]
+    pub const fn new(v: bool) -> Self {
+      Self(core::sync::atomic::AtomicBool::new(v))
+    }
+
+    /// see core
+    #[inline]
+    pub fn load(&self, ord: Ordering) -> bool {
+      self.0.load(ord)
+    }
+
+    /// see core
+    #[inline]
+    pub fn store(&self, v: bool, ord: Ordering) {
+      self.0.store(v, ord)
+    }
+  }
+}
+
+/// A raw view of the allocator state for the verification harness (plain reads that
+/// are not reported to the hook).
+#[derive(Debug, Clone, PartialEq, Eq)]
+pub struct Snapshot {
+  /// sentinel word
+  pub sentinel: u64,
+  /// cursor
+  pub allocated: u32,
+  /// minimum segment size
+  pub min_segment_size: u32,
+  /// discarded counter
+  pub discarded: u32,
+  /// nodes reached from the sentinel: (node offset, size field, next field)
+  pub nodes: std::vec::Vec<(u32, u32, u32)>,
+  /// the walk stopped because `max` nodes were visited or an offset was out of range
+  pub truncated: bool,
+}
+
+/// Walks the free list stored in `mem` starting from `sentinel`.
+///
+/// ## Safety
+/// `ptr..ptr+cap` must be readable.
+pub unsafe fn walk(ptr: *const u8, cap: usize, sentinel: u64, max: usize) -> (std::vec::Vec<(u32, u32, u32)>, bool) {
+  let mut nodes = std::vec::Vec::new();
+  let mut next = sentinel as u32;
+  loop {
+    if next == u32::MAX {
+      return (nodes, false);
+    }
+    if nodes.len() >= max || (next as usize) + 8 > cap || next % 8 != 0 {
+      return (nodes, true);
+    }
+    let w = unsafe { core::ptr::read_volatile(ptr.add(next as usize) as *const u64) };
+    nodes.push((next, (w >> 32) as u32, w as u32));
+    next = w as u32;
+  }
+}
